@@ -556,6 +556,15 @@ fn main() {
                 rep.add_part(st.part);
             }
             {
+                // a connect future that is not polled between the SYN-ACK and the acceptor's close
+                let mut d = vx_core::DfsConfig::new("lazily-polled-connect", 0);
+                d.wall = wall;
+                let thorough = tier == Tier::Thorough;
+                let st = vx_core::explore_dfs(&d, move |ch| fixedlat::lazy_connect_scenario(ch, thorough));
+                rep.violations.extend(st.violations);
+                rep.add_part(st.part);
+            }
+            {
                 // overlapping lifetimes on a tiny ephemeral range (ports and 4-tuples reused)
                 let mut d = vx_core::DfsConfig::new("port-reuse-overlapping-lifetimes", 0);
                 d.wall = wall;
@@ -746,6 +755,19 @@ fn replay(path: &str) {
         println!("replaying {prop}: {scenario}");
         let mut ch = vx_core::Chooser::from_choices(&choices);
         let e = fixedlat::reply_then_drop_scenario(&mut ch, false);
+        match e.violation {
+            Some(v) => {
+                println!("VIOLATION clause={} : {}", v.clause, v.detail);
+                std::process::exit(1);
+            }
+            None => println!("no violation on this execution"),
+        }
+        return;
+    }
+    if prop == "C13" && scenario.starts_with("c13-lazy-connect") {
+        println!("replaying {prop}: {scenario}");
+        let mut ch = vx_core::Chooser::from_choices(&choices);
+        let e = fixedlat::lazy_connect_scenario(&mut ch, false);
         match e.violation {
             Some(v) => {
                 println!("VIOLATION clause={} : {}", v.clause, v.detail);
